@@ -237,6 +237,7 @@ class Extractor:
         self.rlimit = None
         self.dropped = []
         self.outer = []
+        self.lost_hints = []
 
     # -- helpers -------------------------------------------------------------
     def log(self, rule, rel, line, what):
@@ -570,6 +571,13 @@ class Extractor:
                     self.clauses.append((qname, blk, kwd, idx, ' '.join(clause.split())))
                     idx += 1
                 edits.append((lbo, 1, '\n' + c.text.rstrip() + '\n', ('contract', qname, blk, c.text)))
+        # end of the body of loop K
+        for c in children:
+            if c.kind == 'loopend':
+                k = int(c.args[0])
+                if k >= len(loops):
+                    raise LostAnchor('%s has no loop #%d any more' % (qname, k))
+                edits.append((loops[k][3], 0, '\n' + c.text + '\n', ('contract', qname, 'hint-loopend%d' % k, c.text)))
         # top
         for c in children:
             if c.kind == 'top':
@@ -596,13 +604,19 @@ class Extractor:
                     if mask[p[0]]:
                         occ.append(p)
                     p = p[0] + 1
+                # A ghost hint whose anchor is gone is dropped (and logged): the obligations it
+                # served are still generated, they just have to be proved without it.
                 if nth is None:
                     if len(occ) != 1:
-                        raise LostAnchor('hint anchor %r in %s matches %d times (need exactly 1)' % (anchor, qname, len(occ)))
+                        self.lost_hints.append('hint anchor %r in %s matches %d times (need exactly 1): hint dropped' % (anchor, qname, len(occ)))
+                        hint_no += 1
+                        continue
                     a, b = occ[0]
                 else:
                     if nth >= len(occ):
-                        raise LostAnchor('hint anchor %r #%d in %s not found' % (anchor, nth, qname))
+                        self.lost_hints.append('hint anchor %r #%d in %s not found: hint dropped' % (anchor, nth, qname))
+                        hint_no += 1
+                        continue
                     a, b = occ[nth]
                 blk = 'hint%d' % hint_no
                 hint_no += 1
